@@ -60,7 +60,7 @@ def _meas_extract(I, ret):
 
 C[f"{SSTATE}:Stabilizer.apply_measurement"] = Contract(
     f"{SSTATE}:Stabilizer.apply_measurement", requires=lambda I, self, q, mode: idx_in(q, self.fields["_tableau"].fields["n_qubits"]),
-    spec=_meas_spec, extract=_meas_extract, clause="Z measurement of the tableau; returns the outcome")
+    spec=_meas_spec, extract=_meas_extract, choices=K.zmeas_choices, clause="Z measurement of the tableau; returns the outcome")
 
 
 def _reset_spec(I, self, q, mode):
@@ -70,7 +70,34 @@ def _reset_spec(I, self, q, mode):
 
 C[f"{SSTATE}:Stabilizer.reset_qubit"] = Contract(
     f"{SSTATE}:Stabilizer.reset_qubit", requires=lambda I, self, q, mode: idx_in(q, self.fields["_tableau"].fields["n_qubits"]),
-    spec=_reset_spec, extract=_meas_extract, clause="a reset leaves the measured qubit in |0> (reset_z with intended_state 0)")
+    spec=_reset_spec, extract=_meas_extract, choices=K.zmeas_choices, clause="a reset leaves the measured qubit in |0> (reset_z with intended_state 0)")
+
+
+def _remove_state_spec(I, self, q, mode="probabilistic"):
+    from . import stab_remove as R
+
+    self.fields["_tableau"] = R._remove_spec(I, self.fields["_tableau"], q, mode)
+    return None
+
+
+C[f"{SSTATE}:Stabilizer.remove_qubit"] = Contract(
+    f"{SSTATE}:Stabilizer.remove_qubit",
+    requires=lambda I, self, q, mode="probabilistic": idx_in(q, self.fields["_tableau"].fields["n_qubits"]),
+    spec=_remove_state_spec, extract=_meas_extract, choices=K.zmeas_choices,
+    clause="Stabilizer.remove_qubit measures and discards the qubit of its tableau (clifford.remove_qubit), passing the determinism on")
+
+
+def shrink_tasks(Call):
+    from . import stab_remove as R
+
+    Call.update(R.C)
+    Call.update(C)
+    T = []
+    q = f"{SSTATE}:Stabilizer.remove_qubit"
+    for mode in ("probabilistic", 0, 1):
+        T.append(Task(q, C[q], [S.StabState("T"), S.IntArg("q"), S.Const("mode", mode)], Call, inline=TABLEAU_ACCESSORS,
+                      label=f"Stabilizer.remove_qubit[{mode}]"))
+    return T
 
 
 def tasks(Call):
